@@ -774,6 +774,11 @@ func (env *SpecEnv) evalCall(x *SCall) Val {
 	case "cat":
 		argn(2)
 		return Sc{App("sconcat", SStr, env.asStr(env.eval(x.Args[0])), env.asStr(env.eval(x.Args[1])))}
+	case "gint":
+		// gint("name", obj): a named ghost (mathematical) integer attached to an object; nil may be
+		// given as the object for a global ghost counter
+		argn(2)
+		return Sc{in.load(env.st, env.gintCell(x), env.f).(Sc).T}
 	case "gmap":
 		// gmap("name", obj): a named ghost map (bytes -> bytes) attached to an object (an interface
 		// value or a pointer); only contracts read and write it
@@ -1176,4 +1181,43 @@ func (env *SpecEnv) elemGoType(name string) types.Type {
 		return types.NewPointer(t)
 	}
 	return t
+}
+
+// gintCell resolves the cell of a gint("name", obj) expression.
+func (env *SpecEnv) gintCell(x *SCall) *Cell {
+	in := env.in
+	lit, ok := x.Args[0].(*SStrLit)
+	if !ok {
+		env.fail("gint: the first argument is a string literal naming the ghost integer")
+	}
+	key := "nil"
+	var owner *Cell
+	if id, isNil := x.Args[1].(*SIdent); !(isNil && id.Name == "nil") {
+		switch o := env.eval(x.Args[1]).(type) {
+		case Sc:
+			key = o.T.S
+		case PtrV:
+			key = in.refOf(o).S
+			owner = o.To
+		default:
+			env.fail("gint: object is %T (expected an interface value, a pointer or nil)", o)
+		}
+	}
+	if in.dbCells == nil {
+		in.dbCells = map[string]*Cell{}
+	}
+	ck := "gint:" + lit.V + ":" + key
+	c, ok := in.dbCells[ck]
+	if !ok {
+		c = in.newCell("gi_"+lit.V+"("+trunc(key, 20)+")", CVar, nil)
+		in.initial[c] = Sc{in.D.fresh("gi_"+lit.V, SInt)}
+		in.dbCells[ck] = c
+		if owner != nil {
+			if in.ghostOwner == nil {
+				in.ghostOwner = map[*Cell]*Cell{}
+			}
+			in.ghostOwner[c] = owner
+		}
+	}
+	return c
 }
